@@ -208,7 +208,111 @@ fn sub_case(v: &Value, idx: usize, g: &mut G2, rep: &Report, cnt: &mut Counts, s
     }
 }
 
+/// Packed-pair finders with pair offsets up to 254 (needles of 225..300 bytes) on haystacks whose length runs from the
+/// finder's own min_haystack_len() upwards, ending exactly at a PROT_NONE page: the boundary "haystack just long
+/// enough" for the largest offsets. One case per (needle length, pair, haystack length, content).
+pub fn pp_extreme_cases() -> Vec<Value> {
+    let mut v = Vec::new();
+    for &nl in &[225usize, 240, 254, 255, 256, 300] {
+        let cap = nl.min(255);
+        for (a, b) in [(cap - 1, 0usize), (0, cap - 1), (cap - 1, cap - 2), (224, 0), (239, 1), (1, 223)] {
+            if a >= cap || b >= cap || a == b {
+                continue;
+            }
+            for extra in 0..40usize {
+                for content in 0..2 {
+                    v.push(json!({"m": "ppx", "nl": nl, "i1": a, "i2": b, "extra": extra, "content": content}));
+                }
+            }
+        }
+    }
+    v
+}
+
+fn ppx_case(v: &Value, g: &mut G2, rep: &Report, cnt: &mut Counts) {
+    let nl = get_u(v, "nl");
+    let (i1, i2) = (get_u(v, "i1"), get_u(v, "i2"));
+    let extra = get_u(v, "extra");
+    let mut nv = vec![b'e'; nl];
+    nv[i1] = b'Q';
+    nv[i2] = b'Z';
+    let pair = match Pair::with_indices(&nv, i1 as u8, i2 as u8) {
+        Some(p) => p,
+        None => return,
+    };
+    // haystack length = the finder's own minimum + extra (what a caller following the documentation would pass)
+    let mut lens: Vec<(String, usize)> = Vec::new();
+    #[cfg(verif_x86)]
+    {
+        use memchr::arch::x86_64::{avx2, sse2};
+        if let Some(f) = sse2::packedpair::Finder::with_pair(&nv, pair) {
+            lens.push(("sse2".into(), f.min_haystack_len() + extra));
+        }
+        if let Some(f) = avx2::packedpair::Finder::with_pair(&nv, pair) {
+            lens.push(("avx2".into(), f.min_haystack_len() + extra));
+        }
+    }
+    #[cfg(target_arch = "aarch64")]
+    {
+        if let Some(f) = memchr::arch::aarch64::neon::packedpair::Finder::with_pair(&nv, pair) {
+            lens.push(("neon".into(), f.min_haystack_len() + extra));
+        }
+    }
+    lens.push(("memmem".into(), nl + extra));
+    for (who, hl) in lens {
+        if hl > g.hay.cap() || hl < nl {
+            continue;
+        }
+        let mut hv = vec![b'.'; hl];
+        if get_u(v, "content") == 1 {
+            hv[hl - nl..].copy_from_slice(&nv);
+        }
+        g.hay.fill(b'Q');
+        g.ndl.fill(b'Z');
+        let h: &[u8] = g.hay.at_end(&hv);
+        let n: &[u8] = g.ndl.at_end(&nv);
+        let ctx = || json!({"vector": v, "run": {"finder": who, "haystack_len": hl}});
+        hook::start(&[(h.as_ptr() as usize, h.len()), (n.as_ptr() as usize, n.len())]);
+        let _ = guard(|| {
+            match who.as_str() {
+                #[cfg(verif_x86)]
+                "sse2" => {
+                    let f = memchr::arch::x86_64::sse2::packedpair::Finder::with_pair(n, pair).unwrap();
+                    let _ = f.find(h, n);
+                    let _ = f.find_prefilter(h);
+                }
+                #[cfg(verif_x86)]
+                "avx2" => {
+                    let f = memchr::arch::x86_64::avx2::packedpair::Finder::with_pair(n, pair).unwrap();
+                    let _ = f.find(h, n);
+                    let _ = f.find_prefilter(h);
+                }
+                #[cfg(target_arch = "aarch64")]
+                "neon" => {
+                    let f = memchr::arch::aarch64::neon::packedpair::Finder::with_pair(n, pair).unwrap();
+                    let _ = f.find(h, n);
+                    let _ = f.find_prefilter(h);
+                }
+                _ => {
+                    // the meta searcher picks its own pair with the default ranker (Q and Z are the rare bytes)
+                    let _ = memmem::find(h, n);
+                    let _ = memmem::Finder::new(n).find_iter(h).count();
+                }
+            }
+        });
+        let (ev, _) = hook::stop();
+        cnt.add("guard_exec", 2);
+        flag_events(rep, &ev, "packed-pair finder with extreme pair offsets", &ctx);
+    }
+}
+
 pub fn replay(vs: &[Value], rep: &Report, threads: usize, seed: u64, tmp: &str, lifts: usize) {
+    // the extreme-offset family is appended to substring vector files (once per run)
+    let mut all: Vec<Value> = vs.to_vec();
+    if vs.iter().any(|v| v.get("m").and_then(|x| x.as_str()) == Some("mm")) {
+        all.extend(pp_extreme_cases());
+    }
+    let vs = &all[..];
     let crashes = run_isolated(vs.len(), 400, threads, tmp, rep, &|r, rep| {
         let mut g = G2 { hay: Guarded::new(2), ndl: Guarded::new(1) };
         let mut cnt = Counts::default();
@@ -217,6 +321,7 @@ pub fn replay(vs: &[Value], rep: &Report, threads: usize, seed: u64, tmp: &str, 
             match v.get("m").and_then(|x| x.as_str()) {
                 Some("generic") | Some("swar") => bytes_case(v, i, &mut g, rep, &mut cnt, seed),
                 Some("mm") => sub_case(v, i, &mut g, rep, &mut cnt, seed, lifts),
+                Some("ppx") => ppx_case(v, &mut g, rep, &mut cnt),
                 _ => {}
             }
             cnt.add("vectors", 1);
